@@ -31,6 +31,7 @@ type c33rcfg struct {
 	always  bool
 	flow    bool
 	stall   bool // the server withholds the reply of the first cancellable command for 10ms (virtual)
+	retry   bool // retries on (delay 0); the server answers LOADING once to the command whose key starts with "loading."
 }
 
 func c33rbody(c c33rcfg) func(x *vsched.Exec) {
@@ -44,6 +45,19 @@ func c33rbody(c c33rcfg) func(x *vsched.Exec) {
 		defer func() { queueTypeFromEnv = old }()
 		e := vwNew(func(o *ClientOption, srv *simredis.Server, n *simnet.Net) {
 			o.AlwaysPipelining = c.always
+			if c.retry {
+				o.DisableRetry = false
+				o.RetryDelay = func(int, Completed, error) time.Duration { return 0 }
+				loaded := false
+				srv.Hook = func(ss *simredis.Session, argv []string) *simredis.Reply {
+					if !loaded && len(argv) > 1 && strings.HasPrefix(argv[1], "loading.") {
+						loaded = true
+						r := simredis.Err("LOADING Redis is loading the dataset in memory")
+						return &r
+					}
+					return nil
+				}
+			}
 			if c.stall {
 				done := false
 				n.Script = func(cn *simnet.Conn, argv []string) int {
@@ -142,6 +156,61 @@ func c33rbody(c c33rcfg) func(x *vsched.Exec) {
 							dc.Do(cctx, cmd)
 							return nil
 						})
+					case "cachecancel", "mgetcancel", "mcachecancel":
+						// client-side-caching reads are rewritten into CLIENT CACHING YES / MULTI / PTTL k.. / GET|MGET k.. / EXEC,
+						// partly built from pooled commands; the caller abandons the call at any point
+						k1, k2 := "main."+t+".k1", "main."+t+".k2"
+						allow := func(argv ...string) { built[strings.Join(argv, "\x00")]++ }
+						switch op {
+						case "cachecancel":
+							allow("CLIENT", "CACHING", "YES")
+							allow("MULTI")
+							allow("PTTL", k1)
+							allow("GET", k1)
+							allow("EXEC")
+							e.client.DoCache(cctx, b.Get().Key(k1).Cache(), time.Minute)
+						case "mgetcancel":
+							allow("CLIENT", "CACHING", "YES")
+							allow("MULTI")
+							allow("PTTL", k1)
+							allow("PTTL", k2)
+							allow("MGET", k1, k2)
+							allow("EXEC")
+							e.client.DoCache(cctx, b.Mget().Key(k1, k2).Cache(), time.Minute)
+						case "mcachecancel":
+							for _, k := range []string{k1, k2} {
+								allow("CLIENT", "CACHING", "YES")
+								allow("MULTI")
+								allow("PTTL", k)
+								allow("GET", k)
+								allow("EXEC")
+							}
+							e.client.DoMultiCache(cctx, CT(b.Get().Key(k1).Cache(), time.Minute), CT(b.Get().Key(k2).Cache(), time.Minute))
+						}
+					case "dedicated-multi-retry", "multi-retry":
+						// a read-only batch whose second member is answered LOADING once: the whole batch is sent again
+						c1 := b.Get().Key("main." + t + ".first").Build()
+						c2 := b.Get().Key("loading." + t).Build()
+						c3 := b.Get().Key("main." + t + ".third").Build()
+						note(c1, 2, 1)
+						note(c2, 2, 2)
+						note(c3, 2, 1)
+						if op == "multi-retry" {
+							for _, r := range e.client.DoMulti(bg, c1, c2, c3) {
+								if err := r.Error(); err != nil && !IsRedisNil(err) {
+									errs = append(errs, fmt.Sprintf("%s %s: %v", who, op, err))
+								}
+							}
+						} else {
+							e.client.Dedicated(func(dc DedicatedClient) error {
+								for _, r := range dc.DoMulti(bg, c1, c2, c3) {
+									if err := r.Error(); err != nil && !IsRedisNil(err) {
+										errs = append(errs, fmt.Sprintf("%s %s: %v", who, op, err))
+									}
+								}
+								return nil
+							})
+						}
 					case "pin":
 						cmd := b.Set().Key("main." + t).Value("value-of-" + t).PxMilliseconds(7).Build().Pin()
 						note(cmd, 2, 1)
@@ -213,7 +282,7 @@ func c33rkeys(m map[string]int) []string {
 
 func TestVerif_C33R(t *testing.T) {
 	vrun.Main(t, "C33", func(r *vrun.Run) {
-		r.Rule = "recycling half: 1-2 callers on a real single client over the simulated wire issue Do / DoMulti / Dedicated.Do / a pinned command with a context that another thread cancels at any scheduling point (or a deadline firing while the reply is withheld), and after every operation at once build and send two more commands of other lengths (LIFO command pool: a command recycled too early is overwritten by the next Build); oracle: every command the fake server receives is byte-for-byte one the callers built, at most as often as it was sent, and every command of a call that was not abandoned arrives exactly once; non-trivial = schedule in which a thread blocked"
+		r.Rule = "recycling half: 1-2 callers on a real single client over the simulated wire issue Do / DoMulti / Dedicated.Do / DoCache (GET, MGET) / DoMultiCache / a pinned command with a context that another thread cancels at any scheduling point (or a deadline firing while the reply is withheld), and after every operation at once build and send two more commands of other lengths (LIFO command pool: a command recycled too early is overwritten by the next Build); oracle: every command the fake server receives is byte-for-byte one the callers built, at most as often as it was sent, and every command of a call that was not abandoned arrives exactly once; non-trivial = schedule in which a thread blocked"
 		cfgs := []c33rcfg{
 			{name: "always/docancel", callers: [][]string{{"docancel"}}, always: true},
 			{name: "always/docancel|do", callers: [][]string{{"docancel"}, {"do"}}, always: true},
@@ -224,6 +293,12 @@ func TestVerif_C33R(t *testing.T) {
 			{name: "always/stall/docancel|do", callers: [][]string{{"docancel"}, {"do"}}, always: true, stall: true},
 			{name: "always/stall/timeout,do", callers: [][]string{{"timeout", "do"}}, always: true, stall: true},
 			{name: "stall/timeout|do", callers: [][]string{{"timeout"}, {"do"}}, stall: true},
+			{name: "always/mgetcancel|do", callers: [][]string{{"mgetcancel"}, {"do"}}, always: true},
+			{name: "always/cachecancel|do", callers: [][]string{{"cachecancel"}, {"do"}}, always: true},
+			{name: "always/mcachecancel|do", callers: [][]string{{"mcachecancel"}, {"do"}}, always: true},
+			{name: "mgetcancel|do", callers: [][]string{{"mgetcancel"}, {"do"}}},
+			{name: "retry/dedicated-multi-retry|do", callers: [][]string{{"dedicated-multi-retry"}, {"do"}}, retry: true},
+			{name: "retry/multi-retry|do", callers: [][]string{{"multi-retry"}, {"do"}}, retry: true},
 			{name: "dedicated-cancel|do", callers: [][]string{{"dedicated-cancel"}, {"do"}}},
 			{name: "always/pin|do", callers: [][]string{{"pin"}, {"do"}}, always: true},
 		}
